@@ -584,7 +584,9 @@ def uf_app(name, args):
 def _safe_native(f, x):
     try:
         return f(x)
-    except (ValueError, OverflowError):
+    except OverflowError:
+        return float('inf')          # exp / 10**x beyond the double range: NumPy returns inf
+    except ValueError:
         return float('nan')
 
 
